@@ -37,6 +37,16 @@ def repo_dir():
     return os.environ.get("HDLINT_REPO", "/repo")
 
 
+def out_dir():
+    """Evidence and replay files describe /repo; a run against another tree (HDLINT_REPO, used by the seeded-change
+    and refactoring harnesses only) writes them to a scratch directory so that committed evidence stays about /repo."""
+    if os.path.realpath(repo_dir()) == "/repo":
+        return VERIF
+    d = os.environ.get("HDLINT_OUT_DIR") or os.path.join("/var/tmp", "hdlint-out-%d" % os.getuid())
+    os.makedirs(d, exist_ok=True)
+    return d
+
+
 def sysroot():
     return subprocess.check_output(["rustc", "+nightly", "--print", "sysroot"], text=True).strip()
 
@@ -375,8 +385,8 @@ def run_property(prop, tier="quick", replay=None, quiet=False):
         "wall_s": round(wall, 3),
         "violations": len(new),
     }
-    os.makedirs(os.path.join(VERIF, "evidence"), exist_ok=True)
-    evp = os.path.join(VERIF, "evidence", "%s.json" % prop)
+    os.makedirs(os.path.join(out_dir(), "evidence"), exist_ok=True)
+    evp = os.path.join(out_dir(), "evidence", "%s.json" % prop)
     with open(evp + ".tmp", "w") as fh:
         json.dump(ev, fh, indent=1, sort_keys=False)
     os.replace(evp + ".tmp", evp)
@@ -389,10 +399,10 @@ def run_property(prop, tier="quick", replay=None, quiet=False):
         print("KNOWN-FINDING: property=%s %s :: %s" % (prop, o.fkey(), findings[(prop, o.fkey())]))
     rc = 0
     if new:
-        os.makedirs(os.path.join(VERIF, "replays"), exist_ok=True)
+        os.makedirs(os.path.join(out_dir(), "replays"), exist_ok=True)
         for o in new:
             hid = hashlib.sha256((prop + o.fkey() + (o.config or "")).encode()).hexdigest()[:12]
-            rp = os.path.join(VERIF, "replays", "%s-%s.json" % (prop, hid))
+            rp = os.path.join(out_dir(), "replays", "%s-%s.json" % (prop, hid))
             with open(rp, "w") as fh:
                 json.dump({"property": prop, "rule": o.rule, "config": o.config, "obligation": o.as_dict()}, fh, indent=1)
             print("  [%s] %s %s: %s%s" % (o.status, o.rule, o.key, o.detail, (" at " + o.where) if o.where else ""))
@@ -435,7 +445,7 @@ def main(argv):
         return rc
     rc = run_property(a.prop, tier, replay)
     if a.v:
-        ev = json.load(open(os.path.join(VERIF, "evidence", "%s.json" % a.prop)))
+        ev = json.load(open(os.path.join(out_dir(), "evidence", "%s.json" % a.prop)))
         for o in ev["coverage"]["all_obligations"]:
             print("  %-12s %-10s %s :: %s" % (o["status"], o["rule"], o["key"], o["detail"][:200]))
     return rc
